@@ -200,4 +200,11 @@ def rb_binding_agreement(ctx: Ctx) -> None:
     binding_agreement(ctx)
 
 
-RULES = [r1_arguments_in_caller_scope, r2_positional_binding, r3_per_application_scope, r4_only_symbol_not_defined_defers, rb_binding_agreement]
+def rm_no_process_lifetime_results(ctx: Ctx) -> None:
+    """memoising decorators, module-level stores and mutable defaults on this property's mechanism (shared rule, caches.py)"""
+    from ..caches import state_rule
+
+    state_rule(ctx)
+
+
+RULES = [r1_arguments_in_caller_scope, r2_positional_binding, r3_per_application_scope, r4_only_symbol_not_defined_defers, rb_binding_agreement, rm_no_process_lifetime_results]
